@@ -4,6 +4,18 @@ Open Scope Z_scope.
 
 Definition ERR_FULL := -5.
 
+(* batch form on the bounded sink: per-symbol loop, stops at the first failure *)
+Fixpoint ansb_batch (c : cfg) (cap : N) (m : emodel) (ss : list Z) (a : ans) : ans * Z :=
+  match ss with
+  | [] => (a, 0)
+  | s :: r =>
+      match ans_encode_cap c cap m s a with
+      | EncOk a' => ansb_batch c cap m r a'
+      | EncImpossible => (a, ERR_IMPOSSIBLE)
+      | EncBackendFull => (a, ERR_FULL)
+      end
+  end.
+
 Fixpoint ansb_loop (fuel : nat) (c : cfg) (cap : N) (ms : list rmodel) (l : list Z) (a : ans) : list Z :=
   match fuel with
   | O => out_raw a
@@ -19,6 +31,10 @@ Fixpoint ansb_loop (fuel : nat) (c : cfg) (cap : N) (ms : list rmodel) (l : list
     | 2 :: m :: r =>
         let '(s, a') := ans_decode_sym c (get_model ms m) a in
         s :: ansb_loop fuel' c cap ms r a'
+    | 9 :: m :: r =>
+        let '(ss, r') := read_list r in
+        let '(a', e) := ansb_batch c cap (get_model ms m) ss a in
+        e :: ansb_loop fuel' c cap ms r' a'
     | 12 :: r => out_raw a ++ ansb_loop fuel' c cap ms r a
     | _ => [PANIC]
     end
